@@ -55,6 +55,11 @@ def gen(rng, small=None):
     return c
 
 def run_impl(c, fx, np):
+    if 'prelude' in c:
+        # an earlier operation of the same process with the same constant and operand format under another configuration:
+        # nothing of it may survive into this one (the case is self-contained, so its replay reproduces)
+        try: run_impl(c['prelude'], fx, np)
+        except Exception: pass
     fxm, fym = tuple(c['x']), tuple(c['y'])
     x = A.mk(fx, np, *fxm, c['cx'], rounding=c['rx'], overflow=c['ox'])
     y = A.mk(fx, np, *fym, c['cy'], rounding=c['ry'], overflow=c['oy'])
@@ -216,6 +221,16 @@ def shard(shard, nshards, rng, tier, extra):
                     cases.append(gen(rng, small=(fxm, fym, cx, cy)))
     check(cases, res, 'A:all-code-pairs-small')
     check([gen(rng) for _ in range((6000 if tier == 'quick' else 150000) // nshards)], res, 'B:random')
+    # (Q) the same constant and operand format under two different configurations, one operation after the other
+    seq = []
+    while len(seq) < (400 if tier == 'quick' else 10000) // nshards:
+        c = gen(rng)
+        if 'const' not in c or c['input_size'] != 'same': continue
+        c['const_val'] = rng.choice([rng.randint(-300, 300) / 2.0**rng.randint(3, 6), rng.randint(-300, 300) / 4.0, 1000, -77.125])    # mostly not representable in the operand's format
+        side = 'x' if c['const'] == 'y' else 'y'
+        c2 = dict(c); c2['r' + side] = rng.choice([m for m in RMODES if m != c['r' + side]]); c2['o' + side] = rng.choice(OMODES)
+        c2['prelude'] = dict(c); seq.append(c2)
+    check(seq, res, 'Q:same-constant-under-two-configurations')
     unary(rng, res, tier, shard, nshards)
     return res
 
